@@ -318,3 +318,191 @@ Example ex_resolve_link_results :
   (exists h', resolve_link 8 gap_h 4%nat (Some 7) = Ok h') /\ resolve_link 8 gap_h 5%nat (Some 7) = Err c_EPERM /\
   resolve_link 8 gap_h 6%nat (Some 7) = Err c_ENOENT.
 Proof. vm_compute. split; [eexists; reflexivity|split; reflexivity]. Qed.
+
+(* ================================================================== *)
+(* (4) the xattr map file as a whole (session 3): filemap_xattr.c      *)
+(*     xattr_open_map_file / parse_file_name / parse_xattr /           *)
+(*     xattr_close_map_file / xattr_apply_map_file, istream_get_line,  *)
+(*     sqfs_xattr_create, with every allocation in a resource list     *)
+(* ================================================================== *)
+From SqfsV Require Import C07.XattrFileModel C07.XattrFileProofs C07.XattrFileCodec C07.XattrFileB64.
+From SqfsV Require Import C07.XattrFileApply C07.XattrFileWitness.
+
+(* For EVERY byte string offered as the xattr map file and EVERY way the stream cuts it into windows (win):
+   no access outside a block, no free of something that is not allocated (double free), no use of a released
+   object, nothing released that is still linked ... *)
+Theorem xattr_file_safe : forall win s, xattr_open_map_file win s <> Crash.
+Proof. exact xattr_file_safe_l. Qed.
+Print Assumptions xattr_file_safe.
+
+(* ... and the reader is done within its budget of one loop iteration per input byte. *)
+Theorem xattr_file_total : forall win s, xattr_open_map_file win s <> OutOfFuel.
+Proof. exact xattr_file_total_l. Qed.
+Print Assumptions xattr_file_total.
+
+(* It answers a map that owns exactly the allocations still alive (owns t l: the resource list of t holds the ids
+   l and nothing else, without repetition; map_ids: the map, its patterns, their paths and entries) and whose
+   patterns all carry a NUL-terminated path -- or it refuses with EVERY allocation released. *)
+Theorem xattr_file_graceful : forall win s,
+  (exists t map, xattr_open_map_file win s = Ok (X_map t map) /\ owns t (map_ids map) /\ map_wf map) \/
+  (exists t e ln, xattr_open_map_file win s = Ok (X_refused t e ln) /\ r_live t = []).
+Proof. exact xattr_file_graceful_l. Qed.
+Print Assumptions xattr_file_graceful.
+
+(* in the vocabulary of the other C07 theorems: Ok map or Err e *)
+Theorem xattr_file_verdict : forall win s, oe (xattr_open_verdict win s).
+Proof. exact xattr_verdict_graceful_l. Qed.
+Print Assumptions xattr_file_verdict.
+
+(* xattr_close_map_file on a map that owns what is alive releases everything, each object once ... *)
+Theorem xattr_close_releases : forall t map, owns t (map_ids map) ->
+  exists t', xattr_close_map_file t map = Ok t' /\ r_live t' = [].
+Proof. exact xattr_close_releases_l. Qed.
+Print Assumptions xattr_close_releases.
+
+(* ... hence open followed by close leaves nothing behind, whatever the file. *)
+Theorem xattr_open_close_clean : forall win s, exists t, xattr_open_close false win s = Ok t /\ r_live t = [].
+Proof. exact xattr_open_close_clean_l. Qed.
+Print Assumptions xattr_open_close_clean.
+
+(* istream_get_line: a line that is handed out is a NUL-terminated block (what every theorem of part (3) asks of
+   its input), it is the one new allocation, and taking it consumed input *)
+Theorem get_line_block : forall win t F s ln t' b s' ln', owns t F ->
+  get_line win t s ln = Ok (t', GL_line b, s', ln') ->
+  (exists L, buf_ok (b_data b) L) /\ (length s' < length s)%nat /\ owns t' (b_id b :: F).
+Proof. exact get_line_block_l. Qed.
+Print Assumptions get_line_block.
+
+(* The code BEFORE fix F23 (pattern linked into the map before its path was accepted, freed on refusal while still
+   linked): the release walk of the error path touches and frees the pattern again. *)
+Theorem xattr_double_free_refuted :
+  xattr_open_map_file_old win_all xf_dotdot = Crash /\ xattr_open_map_file_old win_one xf_dotdot = Crash /\
+  xattr_open_map_file_old win_all xf_dotdot2 = Crash.
+Proof. exact xattr_double_free_refuted_l. Qed.
+Print Assumptions xattr_double_free_refuted.
+
+Example xattr_double_free_repaired :
+  (exists t, xattr_open_map_file win_all xf_dotdot = Ok (X_refused t e_badpath 1) /\ r_live t = []) /\
+  (exists t, xattr_open_map_file win_all xf_dotdot2 = Ok (X_refused t e_badpath 3) /\ r_live t = []).
+Proof. exact xattr_double_free_repaired_l. Qed.
+
+(* decode_inverse: for every value (bytes < 256, any length) the decoder inverts the three encodings getfattr --dump
+   writes: 0x + hex pairs, 0s + padded base64, and the quoted text form in which backslash and quote are escaped
+   and the bytes selected by oct (NUL among them) are written as backslash + three octal digits. *)
+Theorem decode_inverse : forall v, Forall byte v ->
+  xattr_decode (hex_enc v ++ [0]) = Ok v /\ xattr_decode (b64_enc v ++ [0]) = Ok v /\
+  (forall oct, oct 0 = true -> xattr_decode (text_enc oct v ++ [0]) = Ok v).
+Proof. intros v H. split; [exact (decode_hex_l v H)|split; [exact (decode_b64_l v H)|intros oct H0; exact (decode_text_l oct H0 v H)]]. Qed.
+Print Assumptions decode_inverse.
+
+(* xattr_apply_map_file on a node path (NUL-free, handed over with its NUL): sqfs_xattr_writer_add (add: an
+   arbitrary function of the writer state, the key and the value) sees exactly the entries of the patterns whose path
+   is the node path -- strcmp, one leading slash of the node path dropped unless the pattern starts with one; the
+   code has no glob matching -- in the order of the C lists, up to and including the first add that fails. *)
+Theorem xattr_map_lookup_spec : forall (W : Type) (add : W -> list N -> list N -> W * Z) t map F path w,
+  owns t (map_ids map ++ F) -> map_wf map -> Forall nz path ->
+  xattr_apply_map_file W add t w (path ++ [0]) map
+  = Ok (fst (run_adds W add w 0%Z (flat_map p_ents (filter (pat_matches path) (m_pats map))))).
+Proof. exact xattr_map_lookup_spec_l. Qed.
+Print Assumptions xattr_map_lookup_spec.
+
+(* the order of the C lists is the reverse of the file: both lists are built by prepending *)
+Theorem parse_file_name_prepends : forall t m map t' map', parse_file_name false t m map = Ok (t', map', None) ->
+  exists p name r b tail, m_pats map' = p :: m_pats map /\ m_id map' = m_id map /\ p_ents p = [] /\
+    cstr_at m 8 = Ok name /\ CanonModel.canon_result name = Some r /\ p_path p = Some b /\ b_data b = r ++ 0 :: tail.
+Proof. exact parse_file_name_prepends_l. Qed.
+Theorem parse_xattr_prepends : forall t m p map t' map', parse_xattr t m p map = Ok (t', map', None) ->
+  exists cur rest e vs, m_pats map = cur :: rest /\ m_id map' = m_id map /\
+    m_pats map' = mkPat (p_id cur) (p_path cur) (e :: p_ents cur) :: rest /\
+    cstr_at m 0 = Ok (e_key e) /\ bfrom m (p + 1) = Ok vs /\ xattr_decode vs = Ok (e_val e).
+Proof. exact parse_xattr_prepends_l. Qed.
+Print Assumptions parse_file_name_prepends.
+Print Assumptions parse_xattr_prepends.
+
+(* ---- non-vacuity ---- *)
+(* xf_three: "# file: /a//b/", a quoted value with an octal escape and an escaped quote, a hex value, an empty line,
+   a base64 value between blanks with CR LF, a comment.  One pattern "a/b", entries newest first; the same for
+   one-byte windows (ids differ, the payload does not). *)
+Definition payload (r : res xopen) : option (list (res (list N) * list (list N * list N))) :=
+  match r with
+  | Ok (X_map _ m) => Some (map (fun p => (pat_path p, map ent_payload (p_ents p))) (m_pats m))
+  | _ => None
+  end.
+Example ex_xfile_three :
+  payload (xattr_open_map_file win_all xf_three)
+  = Some [(Ok [97; 47; 98], [([117; 115; 101; 114; 46; 98], [65; 66]); ([117; 115; 101; 114; 46; 104], [65; 66]);
+                             ([117; 115; 101; 114; 46; 116], [97; 65; 34; 113])])]
+  /\ payload (xattr_open_map_file win_one xf_three) = payload (xattr_open_map_file win_all xf_three).
+Proof. vm_compute. split; reflexivity. Qed.
+(* a ".." path is refused, line number 1, nothing left allocated *)
+Example ex_xfile_dotdot : exists t, xattr_open_map_file win_one xf_dotdot = Ok (X_refused t e_badpath 1) /\ r_live t = [].
+Proof. vm_compute. eexists; split; reflexivity. Qed.
+(* a key=value line before any "# file:" line, the value 0xzz (line 2), a line that is neither *)
+Example ex_xfile_refusals :
+  (exists t, xattr_open_map_file win_all [117; 61; 98; 10] = Ok (X_refused t e_nofile 1)) /\
+  (exists t, xattr_open_map_file win_all [35; 32; 102; 105; 108; 101; 58; 32; 120; 10; 117; 61; 48; 120; 122; 122; 10] = Ok (X_refused t e_encoding 2)) /\
+  (exists t, xattr_open_map_file win_all [10; 10; 120; 10] = Ok (X_refused t e_notkv 3)).
+Proof. vm_compute. repeat split; eexists; reflexivity. Qed.
+(* the hypotheses of xattr_close_releases / xattr_map_lookup_spec hold of the map read from xf_three (by
+   xattr_file_graceful), and the lookup computes: node "/a/b" gets the three entries, node "/a" none; a writer that
+   fails on the second add stops there *)
+Definition ex_add (w : list (list N)) (k v : list N) : list (list N) * Z := (w ++ [k], 0%Z).
+Definition ex_add_fail2 (w : list (list N)) (k v : list N) : list (list N) * Z :=
+  (w ++ [k], if (length w =? 1)%nat then (-3)%Z else 0%Z).
+Example ex_lookup :
+  match xattr_open_map_file win_all xf_three with
+  | Ok (X_map t m) =>
+    xattr_apply_map_file _ ex_add t [] ([47; 97; 47; 98] ++ [0]) m
+      = Ok ([[117; 115; 101; 114; 46; 98]; [117; 115; 101; 114; 46; 104]; [117; 115; 101; 114; 46; 116]], 0%Z) /\
+    xattr_apply_map_file _ ex_add t [] ([47; 97] ++ [0]) m = Ok ([], 0%Z) /\
+    xattr_apply_map_file _ ex_add_fail2 t [] ([97; 47; 98] ++ [0]) m
+      = Ok ([[117; 115; 101; 114; 46; 98]; [117; 115; 101; 114; 46; 104]], (-3)%Z) /\
+    filter (pat_matches [47; 97; 47; 98]) (m_pats m) = m_pats m
+  | _ => False
+  end.
+Proof. vm_compute. repeat split. Qed.
+(* decode_inverse on a value with NUL, quote, backslash, newline, a high byte; oct = getfattr's choice *)
+Definition ex_oct (b : N) : bool := (b =? 0) || (b =? 10) || (b =? 13).
+Example ex_decode_inverse :
+  Forall byte [0; 34; 92; 10; 255; 65] /\ ex_oct 0 = true /\
+  text_enc ex_oct [0; 34; 92; 10; 255; 65] = [34; 92; 48; 48; 48; 92; 34; 92; 92; 92; 48; 49; 50; 255; 65; 34] /\
+  hex_enc [0; 255; 65] = [48; 120; 48; 48; 102; 102; 52; 49] /\ b64_enc [65; 66] = [48; 115; 81; 85; 73; 61].
+Proof. split; [repeat constructor|]. vm_compute. repeat split. Qed.
+(* a use after free / double free is expressible in this vocabulary *)
+Example ex_resource_crash :
+  (let (t, a) := r_alloc r_empty in do t1 <- r_free t a; r_free t1 a) = Crash /\
+  (let (t, a) := r_alloc r_empty in do t1 <- r_free t a; r_use t1 a) = Crash.
+Proof. vm_compute. split; reflexivity. Qed.
+
+(* ---- what the reader computes, without resources and without stream windows (XattrFileSpec.v) ----
+   lines_spec: the lines istream_get_line hands out as a function of the bytes still to come (cut at the first LF,
+   one CR in front of it removed, trimmed, empty lines skipped and counted); step_spec: what a line does to the decoded
+   map; xattr_file_spec: their fold.  For EVERY file and EVERY cutting into windows the run returns and what it
+   returns -- verdict, error code and line number of a refusal, the decoded map (path blocks, keys, values, list
+   order) -- is the specification's answer ... *)
+From SqfsV Require Import C07.XattrFileSpec.
+Theorem xattr_open_is_spec : forall win s, exists r, xattr_open_map_file win s = Ok r /\ xattr_file_spec s = Ok (erase r).
+Proof. exact xattr_open_is_spec_l. Qed.
+Print Assumptions xattr_open_is_spec.
+
+(* ... hence it does not depend on the windows the stream hands out (nor on the ids the allocator gives). *)
+Theorem xattr_window_independent : forall win1 win2 s r1 r2,
+  xattr_open_map_file win1 s = Ok r1 -> xattr_open_map_file win2 s = Ok r2 -> erase r1 = erase r2.
+Proof. exact xattr_window_independent_l. Qed.
+Print Assumptions xattr_window_independent.
+
+(* istream_get_line alone: the line block, the rest of the stream and the line counter are those of lines_spec *)
+Theorem get_line_is_spec : forall win t s ln t' o s' ln', get_line win t s ln = Ok (t', o, s', ln') ->
+  lines_spec (S (length s)) s ln = Ok (content o, s', ln').
+Proof. exact get_line_spec_l. Qed.
+Print Assumptions get_line_is_spec.
+
+(* non-vacuity: the specification on xf_three (path block "a/b" NUL + the stale tail "b/" NUL of the in-place
+   canonicalisation; entries newest first) and on a refusal in line 3 behind two blank lines *)
+Example ex_file_spec :
+  xattr_file_spec xf_three
+  = Ok (XS_map [([97; 47; 98; 0; 98; 47; 0], [([117; 115; 101; 114; 46; 98], [65; 66]); ([117; 115; 101; 114; 46; 104], [65; 66]);
+                                               ([117; 115; 101; 114; 46; 116], [97; 65; 34; 113])])])
+  /\ xattr_file_spec [10; 32; 13; 10; 120; 10] = Ok (XS_refused e_notkv 3)
+  /\ lines_spec 20 [32; 97; 61; 98; 9; 13; 10; 10; 120] 1 = Ok (Some [97; 61; 98; 0], [10; 120], 1).
+Proof. vm_compute. repeat split. Qed.
